@@ -174,6 +174,12 @@ func (p *PreprocReader) Read(buf []byte) (int, error) {
 		}
 	}
 
+	if p.buffer.Len() == 0 && p.Err() != nil {
+		// nothing buffered to hand out first: report the failure now, an EOF
+		// here would end io.Copy as if the input had been fully processed
+		return 0, p.Err()
+	}
+
 	return p.buffer.Read(buf)
 }
 
